@@ -4,9 +4,8 @@ CONSTANTS
   NUp = 0
   NDown = 0
   MaxFaults = 1000
-  AsIs_D15 = FALSE
 SPECIFICATION TSpec
-INVARIANTS OneAcceptPerSession OneCurrent NeverDeadT NoFlags
+INVARIANTS OneAcceptPerSession OneCurrent NeverDead NoFlags
 CONSTRAINT Mark
 POSTCONDITION Accepted
 CHECK_DEADLOCK FALSE
